@@ -226,12 +226,24 @@ func (ro *Roles) expiryHandler(r *Report, rule string) {
 	}
 	// who clears: nil stores only in the expiry handler, or where the job leaves the list for good in the same function
 	for _, f := range ro.rootFuncs() {
-		for _, st := range ro.storesTo(f, "PipelineJob.startTimer", func(s *ssa.Store) bool { return isNilConst(s.Val) }) {
+		for _, st := range ro.storesToAny(f, "PipelineJob.startTimer", func(s *ssa.Store) bool { return isNilConst(s.Val) }) {
 			key := FuncName(f) + ": startTimer = nil"
 			// a store in a helper is judged in every anchor the helper is spliced into
 			hosts, other := ro.hostsOf(f)
 			if len(hosts) == 0 || other {
 				hosts = []*ssa.Function{f}
+			}
+			// a store into an object allocated here matters only in the accept function (the new job
+			// is armed and listed there); elsewhere a fresh object is not on the wait list
+			ro.la.curFn = f
+			if _, base, ok := ro.la.rootField(st.Addr); ok && ro.la.fresh(base, nil) {
+				inAccept := false
+				for _, h := range hosts {
+					inAccept = inAccept || h == ro.Accept
+				}
+				if !inAccept {
+					continue
+				}
 			}
 			for _, host := range hosts {
 				hkey := key
@@ -253,6 +265,16 @@ func (ro *Roles) expiryHandler(r *Report, rule string) {
 							seen = true
 							slot := strings.TrimSuffix(e.Target, ".startTimer")
 							over := false
+							// clearing a timer that was never armed on this path (a new job before it is armed) changes nothing
+							if strings.HasPrefix(slot, "local:") {
+								armed := false
+								for _, e0 := range p.Effects[:i] {
+									if e0.Kind == "store" && e0.Target == e.Target && e0.Val != "nil" {
+										armed = true
+									}
+								}
+								over = !armed
+							}
 							for _, e2 := range p.Effects[i+1:] {
 								if e2.Kind == "store" && e2.Target == slot {
 									over = true
